@@ -693,8 +693,8 @@ class AECDHKeyExchange(KeyExchange):
                 ExtensionType.supported_groups)
         if client_curves is None:
             # in case there is no extension, we can pick any curve,
-            # use the configured one
-            client_curves = [self.defaultCurve]
+            # use the configured one if we enable it, any enabled one otherwise
+            client_curves = [self.defaultCurve] + list(self.acceptedCurves)
         elif not client_curves.groups:
             # extension should have been validated before
             raise TLSInternalError("Can't do ECDHE with no client curves")
